@@ -7,8 +7,9 @@
    library's validation errors.  Termination is by construction (total Gallina functions;
    the multisig `while` runs on explicit fuel and never exhausts it: OutOfFuel is among the
    excluded outcomes). *)
-From BV Require Import Common.Base Common.Tx Common.ScriptFlags Gen.ScriptConsts Gen.EvalConsts
-  Model.Script Model.ScriptEval Spec.Script Spec.ScriptRef Proofs.ScriptEval Proofs.ScriptFull.
+From BV Require Import Common.Base Common.PyList Common.Tx Common.ScriptFlags Gen.ScriptConsts Gen.EvalConsts
+  Model.Script Model.ScriptEval Model.ScriptEvalSt Spec.Script Spec.ScriptRef Proofs.ScriptEval Proofs.ScriptFull
+  Proofs.ScriptBounds.
 
 Theorem C07_eval_contained : forall checksig ripemd160 sha1 sha256 fl,
   (forall pk code, checksig [] pk code = false) ->
@@ -52,6 +53,78 @@ Example C07_nonvacuous :
   verify_script cs h h h fl [x51] [] = Ok tt.
 Proof. vm_compute. repeat split; reflexivity. Qed.
 
+(* "... and the state captured in a raised evaluation error respects the interpreter's limits."
+   Model/ScriptEvalSt.v is the same interpreter returning, for every EvalScriptError raised
+   through scripteval.py's err_raiser, the state the exception captures AT THE RAISE:
+     c_stack = len(e.stack), c_alt = len(e.altstack), c_nop = e.nOpCount,
+     c_pb = e.pbegincodehash, c_pc = e.sop_pc, c_len = len(e.scriptIn).
+   For ANY script bytes, oracle, hash functions, flags, and any initial stack of at most 1000
+   items (VerifyScript only ever starts an evaluation on such a stack – second theorem):
+     * the instrumented evaluator has exactly the outcome of eval_script (XFail <-> Err EvalErr …);
+     * a captured state has  items <= 1000 + 3, nOpCount <= 201 + 20,
+       0 <= pbegincodehash <= sop_pc < len(scriptIn) <= 10000.
+   Both constants are tight (C07_error_state_nonvacuous): the 'max stack items' check is made at
+   the end of an iteration, after OP_3DUP appended three items; _CheckMultiSig adds the key count
+   (<= 20) to an nOpCount that already passed the loop's check before comparing it with 201.
+   sop_pc < len is strict: the three EvalScriptErrors raised outside the loop ('script too
+   large', 'Unterminated IF/ELSE block', the wrapper of CScriptInvalidError) do not go through
+   err_raiser and capture no altstack / nOpCount / pbegincodehash / sop_pc at all (they are
+   [XErr EvalErr] in the instrumented model), so len <= 10000 holds for every captured state.
+   The check on IMPL (Run/C07.v err_state_ok) uses the same constants (it used 201 + 21, one more
+   than can occur, before this theorem), and Run/C07.v compares the state captured by IMPL with
+   the one the instrumented model computes on every case. *)
+Theorem C07_error_state_bounds : forall checksig ripemd160 sha1 sha256 fl (script : bytes) (st : list bytes),
+  len st <= 1000 ->
+  match eval_script_st checksig ripemd160 sha1 sha256 fl st script with
+  | XOk st' => eval_script checksig ripemd160 sha1 sha256 fl st script = Ok st' /\ len st' <= 1000
+  | XFail c => eval_script checksig ripemd160 sha1 sha256 fl st script = Err EvalErr /\
+               0 <= c_stack c /\ 0 <= c_alt c /\ c_stack c + c_alt c <= 1000 + 3 /\
+               0 <= c_nop c <= 201 + 20 /\
+               0 <= c_pb c <= c_pc c /\ c_pc c < c_len c /\ c_len c = lenZ script /\ lenZ script <= 10000
+  | XErr e => eval_script checksig ripemd160 sha1 sha256 fl st script = Err e
+  end.
+Proof. exact error_state_bounds. Qed.
+
+(* VerifyScript: the error of whichever of its (up to) three evaluations raised – scriptSig,
+   scriptPubKey on the stack scriptSig left, the P2SH redeem script – propagates unchanged *)
+Theorem C07_verify_error_state_bounds : forall checksig ripemd160 sha1 sha256 fl (scriptSig scriptPubKey : bytes),
+  match verify_script_st checksig ripemd160 sha1 sha256 fl scriptSig scriptPubKey with
+  | XOk _ => verify_script checksig ripemd160 sha1 sha256 fl scriptSig scriptPubKey = Ok tt
+  | XFail c => verify_script checksig ripemd160 sha1 sha256 fl scriptSig scriptPubKey = Err EvalErr /\
+               0 <= c_stack c /\ 0 <= c_alt c /\ c_stack c + c_alt c <= 1000 + 3 /\
+               0 <= c_nop c <= 201 + 20 /\
+               0 <= c_pb c <= c_pc c /\ c_pc c < c_len c /\ c_len c <= 10000
+  | XErr e => verify_script checksig ripemd160 sha1 sha256 fl scriptSig scriptPubKey = Err e
+  end.
+Proof. exact verify_error_state_bounds. Qed.
+
+Example C07_error_state_nonvacuous :
+  let cs := fun _ _ _ : bytes => false in let h := fun x : bytes => x in
+  let fl := {| f_p2sh := true; f_nulldummy := true; f_cleanstack := false; f_discourage_nops := false |} in
+  let K a b c d e f := {| c_stack := a; c_alt := b; c_nop := c; c_pb := d; c_pc := e; c_len := f |} in
+  (* OP_3DUP on a full stack: 1003 items when the size check fires (1000 + 3 is attained) *)
+  eval_script_st cs h h h fl (repeat [] 1000) [x6f] = XFail (K 1003 0 1 0 0 1) /\
+  (* 200 NOPs, then 20 CHECKMULTISIG: 201 passes the loop's check, + 20 keys = 221 (201 + 20 is attained) *)
+  eval_script_st cs h h h fl [] (repeat x61 200 ++ [x01; x14; xae]) = XFail (K 1 0 221 0 202 203) /\
+  (* 202 NOPs: the loop's own check fires after the increment *)
+  eval_script_st cs h h h fl [] (repeat x61 202) = XFail (K 0 0 202 0 201 202) /\
+  (* 1 5 PICK: the index has already been popped when 'out of bounds' is raised *)
+  eval_script_st cs h h h fl [] [x51; x55; x79] = XFail (K 1 0 1 0 2 3) /\
+  (* 1 0 0 CHECKMULTISIG under NULLDUMMY: raised after the arguments were popped, the dummy still there *)
+  eval_script_st cs h h h fl [] [x51; x00; x00; xae] = XFail (K 1 0 1 0 3 4) /\
+  (* NOP CODESEPARATOR RETURN: pbegincodehash = 1 <= sop_pc = 2 < 3 *)
+  eval_script_st cs h h h fl [] [x61; xab; x6a] = XFail (K 0 0 3 1 2 3) /\
+  (* no state: unterminated IF, truncated push, script too large *)
+  eval_script_st cs h h h fl [] [x51; x63] = XErr EvalErr /\
+  eval_script_st cs h h h fl [] [x05; x01] = XErr EvalErr /\
+  eval_script_st cs h h h fl [] (repeat x00 (100 * 100 + 1)) = XErr EvalErr /\
+  (* through VerifyScript: raised by the scriptPubKey evaluation on the stack scriptSig left; by a P2SH redeem script *)
+  verify_script_st cs h h h fl (repeat x51 1000) [x6f] = XFail (K 1003 0 1 0 0 1) /\
+  verify_script_st cs (fun _ => repeat x07 20) h h fl [x51; x02; x51; x6a] (xa9 :: x14 :: repeat x07 20 ++ [x87]) = XFail (K 2 0 1 0 1 2).
+Proof. vm_compute. repeat split; reflexivity. Qed.
+
 Print Assumptions C07_eval_contained.
 Print Assumptions C07_verify_contained.
 Print Assumptions C07_verify_refuted.
+Print Assumptions C07_error_state_bounds.
+Print Assumptions C07_verify_error_state_bounds.
